@@ -110,3 +110,89 @@ func c09Reconfigure(r *Result) {
 		}
 	}
 }
+
+// c09PerOperation: the credential gate does not depend on WHAT is asked: for every operation - Discover Versions with the
+// built-in handler, Discover Versions with a registered handler, ordinary operations, an operation nobody handles, batches
+// mixing them - a request whose credentials the callback rejects (or with no callback configured) reaches no handler and gets no
+// response; the connection is closed.
+func c09PerOperation(r *Result) {
+	type batch struct {
+		name string
+		ops  []kmip.Enum
+	}
+	batches := []batch{
+		{"Discover Versions only", []kmip.Enum{kmip.OPERATION_DISCOVER_VERSIONS}},
+		{"two Discover Versions items", []kmip.Enum{kmip.OPERATION_DISCOVER_VERSIONS, kmip.OPERATION_DISCOVER_VERSIONS}},
+		{"Get only", []kmip.Enum{kmip.OPERATION_GET}},
+		{"Discover Versions and Get", []kmip.Enum{kmip.OPERATION_DISCOVER_VERSIONS, kmip.OPERATION_GET}},
+		{"Query (no handler)", []kmip.Enum{kmip.OPERATION_QUERY}},
+	}
+	payload := func(op kmip.Enum) interface{} {
+		switch op {
+		case kmip.OPERATION_DISCOVER_VERSIONS:
+			return kmip.DiscoverVersionsRequest{}
+		case kmip.OPERATION_GET:
+			return kmip.GetRequest{UniqueIdentifier: "k"}
+		}
+		return kmip.DestroyRequest{UniqueIdentifier: "k"}
+	}
+	for _, customDV := range []bool{false, true} {
+		for _, withCallback := range []bool{true, false} {
+			for _, b := range batches {
+				key := fmt.Sprintf("batch of %s with credentials the callback rejects (callback configured: %v, Discover Versions handler registered by the application: %v)", b.name, withCallback, customDV)
+				crumb("C09 scenario: " + key)
+				r.eval(key, true)
+				var calls int32
+				s := &kmip.Server{}
+				if withCallback {
+					s.RequestAuthHandler = func(sc *kmip.SessionContext, a *kmip.Authentication) (interface{}, error) {
+						return nil, fmt.Errorf("unknown user")
+					}
+				}
+				count := func(ctx *kmip.RequestContext, item *kmip.RequestBatchItem) (interface{}, error) {
+					atomic.AddInt32(&calls, 1)
+					return nil, nil
+				}
+				s.Handle(kmip.OPERATION_GET, count)
+				if customDV {
+					s.Handle(kmip.OPERATION_DISCOVER_VERSIONS, count)
+				}
+				sc, cc := rec.Pipe()
+				rc := rec.NewConn(sc, 1)
+				l := rec.NewListener()
+				l.Push(rec.AcceptStep{Conn: rc})
+				init := make(chan struct{})
+				ret := make(chan error, 1)
+				go func() { ret <- s.Serve(l, init) }()
+				<-init
+				_ = cc.SetDeadline(time.Now().Add(3 * time.Second))
+				req := &kmip.Request{Header: kmip.RequestHeader{Version: kmip.ProtocolVersion{Major: 1, Minor: 4}, BatchCount: int32(len(b.ops)),
+					Authentication: kmip.Authentication{CredentialType: kmip.CREDENTIAL_TYPE_USERNAME_AND_PASSWORD, CredentialValue: kmip.CredentialUsernamePassword{Username: "mallory", Password: "x"}}}}
+				for i, op := range b.ops {
+					req.BatchItems = append(req.BatchItems, kmip.RequestBatchItem{Operation: op, UniqueID: []byte{byte(i + 1)}, RequestPayload: payload(op)})
+				}
+				var resp kmip.Response
+				err := kmip.NewEncoder(cc).Encode(req)
+				if err == nil {
+					err = kmip.NewDecoder(cc).Decode(&resp)
+				}
+				closed := false
+				select {
+				case <-rc.Closed():
+					closed = true
+				case <-time.After(2 * time.Second):
+				}
+				obs := fmt.Sprintf("handler-calls=%d response=%v closed-by-server=%v", atomic.LoadInt32(&calls), err == nil, closed)
+				if obs != "handler-calls=0 response=false closed-by-server=true" {
+					r.find(Finding{Kind: "violation", What: "a request whose credentials were not accepted was not refused outright", Input: key, Expect: "handler-calls=0 response=false closed-by-server=true", Actual: obs})
+				}
+				cc.Close()
+				ctx, cancel := context.WithTimeout(context.Background(), 5*time.Second)
+				_ = s.Shutdown(ctx)
+				cancel()
+				<-ret
+				r.Stats["per-operation-gate-scenarios"]++
+			}
+		}
+	}
+}
